@@ -110,8 +110,8 @@ let () =
         let m = int_of_string ts.(2) in
         let f = match m with
           | 0 -> Model.step
-          | 1 -> Model.step_instr unspec_a
-          | _ -> Model.step_instr unspec_b in
+          | 1 -> Model.spec_step unspec_a
+          | _ -> Model.spec_step unspec_b in
         ignore !specvariant;
         run_step m f
       | "getflag" -> let id = next () in let a = nexti () in let f = nexti () in let m = nexti () in
